@@ -22,7 +22,7 @@ pub struct Choice {
 }
 
 /// Sparse deviation set: (choice-point index, alternative), sorted by index. Copy, no heap.
-pub const MAX_DEV: usize = 6;
+pub const MAX_DEV: usize = 8;
 #[derive(Clone, Copy, Debug, Default, PartialEq, Eq, PartialOrd, Ord)]
 pub struct Dev {
     pub n: u8,
